@@ -956,6 +956,52 @@ func main() {
 		{"skel_handleWS", "RPCServer", "handleWS"},
 		{"skel_ServeHTTP", "RPCServer", "ServeHTTP"},
 		{"skel_websocketClient", "", "websocketClient"},
+		// the rest of the library's non-test code, so that no function is outside the static tie
+		{"skel_batchWriter_nextElem", "batchWriter", "nextElem"},
+		{"skel_batchWriter_Write", "batchWriter", "Write"},
+		{"skel_batchWriter_finish", "batchWriter", "finish"},
+		{"skel_handleFrame", "wsConn", "handleFrame"},
+		{"skel_normalizeID", "", "normalizeID"},
+		{"skel_responseMarshalJSON", "response", "MarshalJSON"},
+		{"skel_httpClient", "", "httpClient"},
+		{"skel_NewCustomClient", "", "NewCustomClient"},
+		{"skel_NewMergeClient", "", "NewMergeClient"},
+		{"skel_NewClient", "", "NewClient"},
+		{"skel_clientSendRequest", "client", "sendRequest"},
+		{"skel_clientProvide", "client", "provide"},
+		{"skel_JSONRPCError_Error", "JSONRPCError", "Error"},
+		{"skel_Errors_Register", "Errors", "Register"},
+		{"skel_NewErrors", "", "NewErrors"},
+		{"skel_RPCConnectionError_Error", "RPCConnectionError", "Error"},
+		{"skel_RPCConnectionError_Unwrap", "RPCConnectionError", "Unwrap"},
+		{"skel_ErrClient_Error", "ErrClient", "Error"},
+		{"skel_ErrClient_Unwrap", "ErrClient", "Unwrap"},
+		{"skel_NewServer", "", "NewServer"},
+		{"skel_makeHandler", "", "makeHandler"},
+		{"skel_RPCServer_Register", "RPCServer", "Register"},
+		{"skel_RPCServer_AliasMethod", "RPCServer", "AliasMethod"},
+		{"skel_RPCServer_HandleRequest", "RPCServer", "HandleRequest"},
+		{"skel_GetConnectionType", "", "GetConnectionType"},
+		{"skel_DecodeParams", "", "DecodeParams"},
+		{"skel_failedWriter_Write", "failedWriter", "Write"},
+		{"skel_NewMethodNameFormatter", "", "NewMethodNameFormatter"},
+		{"skel_defaultConfig", "", "defaultConfig"},
+		{"skel_WithReconnectBackoff", "", "WithReconnectBackoff"},
+		{"skel_WithPingInterval", "", "WithPingInterval"},
+		{"skel_WithTimeout", "", "WithTimeout"},
+		{"skel_WithNoReconnect", "", "WithNoReconnect"},
+		{"skel_WithParamEncoder", "", "WithParamEncoder"},
+		{"skel_WithErrors", "", "WithErrors"},
+		{"skel_WithClientHandler", "", "WithClientHandler"},
+		{"skel_WithClientHandlerAlias", "", "WithClientHandlerAlias"},
+		{"skel_WithHTTPClient", "", "WithHTTPClient"},
+		{"skel_WithMethodNameFormatter", "", "WithMethodNameFormatter"},
+		{"skel_defaultServerConfig", "", "defaultServerConfig"},
+		{"skel_WithParamDecoder", "", "WithParamDecoder"},
+		{"skel_WithMaxRequestSize", "", "WithMaxRequestSize"},
+		{"skel_WithServerErrors", "", "WithServerErrors"},
+		{"skel_WithServerPingInterval", "", "WithServerPingInterval"},
+		{"skel_WithServerMethodNameFormatter", "", "WithServerMethodNameFormatter"},
 	} {
 		f.defSkeleton(p, sk.name, sk.recv, sk.fn)
 	}
